@@ -229,6 +229,17 @@ namespace vlog {
         bool chance(unsigned num, unsigned den) { return below(den) < num; }
     };
 
+    // debugging aid: with VERIF_HANG_PAUSE set, a harness that detected a hang stops here so that a
+    // debugger can be attached
+    inline void hang_pause()
+    {
+        if (std::getenv("VERIF_HANG_PAUSE"))
+        {
+            std::fprintf(stderr, "HANG pid=%d\n", (int) getpid());
+            for (;;) ::pause();
+        }
+    }
+
     // ------------------------------------------------------------------------------------------
     // watchdog: if the harness does not finish within `ms`, write a {"e":"hang"} record, flush, exit 3
     inline void start_watchdog(int ms)
